@@ -62,7 +62,10 @@ class C02(Prop):
     def generate(self, rng, n, deep=False):
         for _ in range(n):
             m = rng.randint(1, 5)
-            alts = gen.alt_ids(rng, m)
+            scale = rng.random() < 0.03     # scale: bulk batches (over a thousand rows / hundreds of orders), 260+ alternatives
+            if scale and rng.random() < 0.3:
+                m = rng.choice([257, 300])
+            alts = gen.alt_ids(rng, m, style="1m" if m > 100 else None)
             if rng.random() < 0.1:
                 alts = [0] + alts[1:]
             pool = []  # votes to draw repeats from
@@ -84,8 +87,8 @@ class C02(Prop):
                 elif k == "array":
                     ln = rng.randint(1, len(alts))
                     rows = []
-                    for _ in range(rng.randint(1, 4)):
-                        if rows and rng.random() < 0.4:
+                    for _ in range(rng.choice([1030, 2100]) if scale and m < 100 else rng.randint(1, 4)):
+                        if rows and rng.random() < (0.995 if scale else 0.4):
                             rows.append(list(rng.choice(rows)))
                         else:
                             rows.append(gen.perm(rng, alts)[:ln])
@@ -93,7 +96,7 @@ class C02(Prop):
                         pool.append([[a] for a in r])
                     ops.append({"k": "array", "os": rows})
                 elif k == "list":
-                    ops.append({"k": "list", "os": [vote() for _ in range(rng.randint(1, 4))]})
+                    ops.append({"k": "list", "os": [vote() for _ in range(rng.choice([210, 640]) if scale and m < 100 else rng.randint(1, 4))]})
                 elif k == "map":
                     vm, seen = [], set()
                     for _ in range(rng.randint(1, 3)):
